@@ -3,7 +3,7 @@ SPECIFICATION Spec
 CONSTANTS
   Bases <- Bases_simdeep
   MaxOps = 6
-  MaxSub = 2
+  MaxSub = 1
   NPat = 3
   OpSet <- Ops_all
   TrimRef <- Ref_012
